@@ -165,6 +165,11 @@ func runC02(r *Run) {
 
 	var ref *Image
 	var progs []string
+	walExcursionAt := -1
+	if !lockPageRun && t.Chance(1, 4) {
+		walExcursionAt = t.Range(1, nprog-1)
+	}
+	r.Cfg["wal_excursion_at"] = walExcursionAt
 	for i := 0; i < nprog && !r.Failed(); i++ {
 		r.Step()
 		cur := ref.N()
@@ -175,6 +180,21 @@ func runC02(r *Run) {
 		if lockPageRun && i == 1 {
 			prog.NewSize = LockPgno(pageSize) + uint32(t.Range(0, 2))
 			prog.Outcome = OutCommit
+		}
+		if i == walExcursionAt && cur > 0 {
+			// An excursion into WAL mode and back: the transaction that leaves
+			// WAL mode again is a rollback-journal transaction (OP_JournalMode
+			// closes the log, then sqlite3BtreeSetVersion(1) under a journal)
+			// and is the program checked in this step.
+			p, ok := c02WalExcursion(r, c, t, ref, maxPages)
+			if !ok {
+				break
+			}
+			ref, cur = p, p.N()
+			c.Mode = mode
+			prog = TxProgram{NewSize: cur, Outcome: OutCommit, SetWAL: 2}
+			drainTxEvents(sub, dbName)
+			r.Count("c02.wal-excursion")
 		}
 		prev := db.Pos()
 		res := c.WriteTx(prog, ref)
@@ -263,4 +283,41 @@ func runC02(r *Run) {
 	c.Close()
 	rd.Close()
 	r.Sample = map[string]any{"programs": progs}
+}
+
+// c02WalExcursion switches the database to WAL mode, commits a few WAL
+// transactions and closes the log as the last connection (checkpoint, unlink
+// -wal and -shm). It returns SQLite's image afterwards; the header still says
+// WAL, the caller commits the journal transaction that changes it back.
+func c02WalExcursion(r *Run, c *Conn, t *Tape, ref *Image, maxPages uint32) (*Image, bool) {
+	res := c.WriteTx(TxProgram{NewSize: ref.N(), Outcome: OutCommit, SetWAL: 1}, ref)
+	if res.Outcome != OutCommit {
+		r.Failf("c02.commit-refused", "switch to WAL refused at %s: %v", res.FailedAt, res.Errno)
+		return nil, false
+	}
+	ref = res.After
+	if e := c.WalOpen(); e != 0 {
+		r.Failf("c02.commit-refused", "opening the WAL failed: %v", e)
+		return nil, false
+	}
+	for k := t.Range(0, 3); k > 0; k-- {
+		prog := GenWalProgram(t, ref.N(), maxPages)
+		res := c.WalWriteTx(prog, ref)
+		if res.Outcome == OutCommit {
+			ref = res.After
+		} else if res.Outcome == "error" || res.Outcome == "busy" {
+			r.Failf("c02.commit-refused", "WAL transaction refused at %s: %v", res.FailedAt, res.Errno)
+			return nil, false
+		}
+	}
+	at, e := c.WalCloseLast(ref)
+	if e != 0 || at != "" {
+		r.Failf("c02.commit-refused", "closing the WAL as the last connection failed at %q: %v", at, e)
+		return nil, false
+	}
+	if e := c.UnlockAll(); e != 0 {
+		r.Failf("c02.commit-refused", "unlock after closing the WAL: %v", e)
+		return nil, false
+	}
+	return ref, true
 }
